@@ -150,9 +150,21 @@ def history(draw, focus='general', max_ops=24):
     else:
         pool = list(range(1, u))
     ids = draw(st.lists(st.sampled_from(pool), min_size=u, max_size=u))
+    strids = draw(st.integers(0, 4)) == 0        # ids are opaque: one universe in five uses strings
     pre = draw(_prefix())
     ops = draw(st.lists(op_strategy(focus, sorted(set(pool))), min_size=1, max_size=max_ops))
-    return {'ids': ids, 'nw': NW, 'held': draw(st.sampled_from([0, 0, 1, 2])), 'ops': [list(o) for o in pre] + [list(o) for o in ops]}
+    case = {'ids': ids, 'nw': NW, 'held': draw(st.sampled_from([0, 0, 1, 2])), 'ops': [list(o) for o in pre] + [list(o) for o in ops]}
+    if strids:
+        f = lambda i: 'k%s' % i
+        case['ids'] = [f(i) for i in ids]
+        for o in case['ops']:
+            if o[0] in ('reorder', 'remove_all', 'wbs_remove_all', 'pred_remove_all', 'succ_remove_all'):
+                o[2] = [f(i) for i in o[2]]
+            elif o[0] == 'bulk_parent':
+                o[2] = [f(i) for i in o[2]]
+            elif o[0] == 'new_task':
+                o[1] = f(o[1])
+    return case
 
 
 # ------------------------------------------------------------------------------ small scope
